@@ -842,6 +842,7 @@ func (fc *fnCtx) loadH(h heap, t types.Type, ref, off string, guard string) *val
 		if u.Info()&types.IsString != 0 {
 			v := &val{k: kSlice, constLen: -1, ty: t, t: []string{sel(h["HSr"], ref, off), sel(h["HSo"], ref, off), sel(h["HSl"], ref, off), sel(h["HSl"], ref, off)}}
 			gimp(sliceWF(v))
+			g.wfInstances("HSr", ref, off, guard)
 			fc.classAssume(v, t, guard)
 			return v
 		}
@@ -850,15 +851,18 @@ func (fc *fnCtx) loadH(h heap, t types.Type, ref, off string, guard string) *val
 		}
 	case *types.Pointer:
 		pv := &val{k: kPtr, ty: t, t: []string{sel(h["HPr"], ref, off), sel(h["HPo"], ref, off)}}
+		g.wfInstances("HPr", ref, off, guard)
 		fc.classAssume(pv, t, guard)
 		gimp(fmt.Sprintf("(and (> %s (- %d)) (bvsle %s %s) (bvslt %s MAXLEN))", pv.t[0], strRefBase, z64, pv.t[1], pv.t[1]))
 		return pv
 	case *types.Slice:
 		v := &val{k: kSlice, constLen: -1, ty: t, t: []string{sel(h["HSr"], ref, off), sel(h["HSo"], ref, off), sel(h["HSl"], ref, off), sel(h["HSc"], ref, off)}}
 		gimp(sliceWF(v))
+		g.wfInstances("HSr", ref, off, guard)
 		fc.classAssume(v, t, guard)
 		return v
 	case *types.Interface:
+		g.wfInstances("HIr", ref, off, guard)
 		return &val{k: kIface, ty: t, t: []string{sel(h["HIt"], ref, off), sel(h["HIr"], ref, off), sel(h["HIo"], ref, off)}}
 	case *types.Array:
 		if n, ok := isByteArray(t); ok {
@@ -883,6 +887,7 @@ func (fc *fnCtx) loadH(h heap, t types.Type, ref, off string, guard string) *val
 		}
 		return v
 	case *types.Map, *types.Signature, *types.Chan:
+		g.wfInstances("HPr", ref, off, guard)
 		return &val{k: kOpaque, ty: t, t: []string{sel(h["HPr"], ref, off)}}
 	}
 	g.unmodelled["load:"+t.String()]++
@@ -1033,9 +1038,7 @@ func (fc *fnCtx) havocHeap(tag, keep string, keepGhost bool) {
 	ac := g.declare(g.freshName("AC"), "Int")
 	g.assume(fmt.Sprintf("(>= %s %s)", ac, fc.curAC))
 	if !g.lite {
-		for _, kk := range []string{"HPr", "HSr", "HIr"} {
-			g.assume(fmt.Sprintf("(forall ((r Int) (s (_ BitVec 64))) (! (< (select (select %s r) s) %s) :pattern ((select (select %s r) s))))", fresh[kk], ac, fresh[kk]))
-		}
+		g.registerBaseHeap(fresh, ac)
 	}
 	fc.curAC = ac
 }
